@@ -14,3 +14,4 @@ pub mod seeds;
 pub mod trap;
 pub mod strmap;
 pub mod contain;
+pub mod cap13;
